@@ -433,6 +433,19 @@ where
             })
     }
 
+    /// Consume the trailing bytes of a value
+    /// whose declared length is not a multiple of the unit size,
+    /// so that the reader stays aligned with the declared length.
+    fn skip_remainder(&mut self, rem: usize) -> Result<()> {
+        // the remainder is always smaller than the largest unit size (8 bytes)
+        let mut pad = [0u8; 8];
+        self.from
+            .read_exact(&mut pad[..rem])
+            .context(ReadValueDataSnafu {
+                position: self.position,
+            })
+    }
+
     fn read_value_tag(&mut self, header: &DataElementHeader) -> Result<PrimitiveValue> {
         let len = self.require_known_length(header)?;
 
@@ -447,6 +460,7 @@ where
                     })
             })
             .collect();
+        self.skip_remainder(len & 3)?;
         self.position += len as u64;
         Ok(PrimitiveValue::Tags(parts?))
     }
@@ -539,6 +553,7 @@ where
                 position: self.position,
             })?;
 
+        self.skip_remainder(len & 1)?;
         self.position += len as u64;
         Ok(PrimitiveValue::I16(vec))
     }
@@ -553,6 +568,7 @@ where
             .context(ReadValueDataSnafu {
                 position: self.position,
             })?;
+        self.skip_remainder(len & 3)?;
         self.position += len as u64;
         Ok(PrimitiveValue::F32(vec))
     }
@@ -569,6 +585,7 @@ where
             })?;
         let buf = trim_trail_empty_bytes(&self.buffer);
         if buf.is_empty() {
+            self.position += len as u64;
             return Ok(PrimitiveValue::Empty);
         }
 
@@ -608,6 +625,7 @@ where
             })?;
         let buf = trim_trail_empty_bytes(&self.buffer);
         if buf.is_empty() {
+            self.position += len as u64;
             return Ok(PrimitiveValue::Empty);
         }
 
@@ -640,6 +658,7 @@ where
             })?;
         let buf = trim_trail_empty_bytes(&self.buffer);
         if buf.is_empty() {
+            self.position += len as u64;
             return Ok(PrimitiveValue::Empty);
         }
 
@@ -677,6 +696,7 @@ where
             })?;
         let buf = trim_trail_empty_bytes(&self.buffer);
         if buf.is_empty() {
+            self.position += len as u64;
             return Ok(PrimitiveValue::Empty);
         }
 
@@ -709,6 +729,7 @@ where
             })?;
         let buf = trim_trail_empty_bytes(&self.buffer);
         if buf.is_empty() {
+            self.position += len as u64;
             return Ok(PrimitiveValue::Empty);
         }
 
@@ -746,6 +767,7 @@ where
             .context(ReadValueDataSnafu {
                 position: self.position,
             })?;
+        self.skip_remainder(len & 7)?;
         self.position += len as u64;
         Ok(PrimitiveValue::F64(vec))
     }
@@ -761,6 +783,7 @@ where
             .context(ReadValueDataSnafu {
                 position: self.position,
             })?;
+        self.skip_remainder(len & 3)?;
         self.position += len as u64;
         Ok(PrimitiveValue::U32(vec))
     }
@@ -790,6 +813,7 @@ where
                 position: self.position,
             })?;
 
+        self.skip_remainder(len & 1)?;
         self.position += len as u64;
 
         if header.tag == Tag(0x0028, 0x0103) {
@@ -811,6 +835,7 @@ where
             .context(ReadValueDataSnafu {
                 position: self.position,
             })?;
+        self.skip_remainder(len & 7)?;
         self.position += len as u64;
         Ok(PrimitiveValue::U64(vec))
     }
@@ -826,6 +851,7 @@ where
             .context(ReadValueDataSnafu {
                 position: self.position,
             })?;
+        self.skip_remainder(len & 3)?;
         self.position += len as u64;
         Ok(PrimitiveValue::I32(vec))
     }
@@ -841,6 +867,7 @@ where
             .context(ReadValueDataSnafu {
                 position: self.position,
             })?;
+        self.skip_remainder(len & 7)?;
         self.position += len as u64;
         Ok(PrimitiveValue::I64(vec))
     }
